@@ -3,12 +3,12 @@ EXTENDS Integers, Sequences, FiniteSets, TLC, Json, IOUtils, P_C05S
 Rec == ndJsonDeserialize(IOEnv.TRACE)
 VARIABLES l, mon, mode, bad
 tvars == <<l, mon, mode, bad>>
-TInit == l = 1 /\ mon = PInit([what |-> "sound", w |-> 1]) /\ mode = "skip" /\ bad = <<>>
+TInit == l = 1 /\ mon = PInit([what |-> "sound", w |-> 1, paused |-> FALSE]) /\ mode = "skip" /\ bad = <<>>
 TNext ==
   /\ l <= Len(Rec)
   /\ l' = l + 1
   /\ LET e == Rec[l] IN
-     IF e.a = "reset" THEN mon' = PInit([what |-> e.what, w |-> e.w]) /\ mode' = "ok" /\ bad' = bad
+     IF e.a = "reset" THEN mon' = PInit([what |-> e.what, w |-> e.w, paused |-> ("paused" \in DOMAIN e /\ e.paused)]) /\ mode' = "ok" /\ bad' = bad
      ELSE IF mode = "skip" \/ e.a = "end" THEN UNCHANGED <<mon, mode, bad>>
      ELSE LET r == Check(mon, e) IN
           IF r = "" THEN mon' = Upd(mon, e) /\ UNCHANGED <<mode, bad>>
